@@ -421,6 +421,22 @@ def build_unusual(case: dict) -> tuple[int, bytes]:
             return 1, build.open_with_caps(65001, 90, 0x0A000002, caps, grouping='each', extended=True)
         # RFC 9072: one parameter may now be longer than 255 bytes
         return 1, build.open_body(4, 65001, 90, 0x0A000002, [(2, b''.join(caps))], extended=True)
+    if shape == 'open-param-length':
+        # the optional parameters are exactly `total` octets long, in the RFC 4271 form (one length octet, 255 included)
+        # or in the RFC 9072 form; an unknown capability is the filler
+        total, extended, split = case['total'], case['extended'], case['split']
+        per = 3 if extended else 2
+        params = []
+        if split:
+            params.append((2, build.cap_mp(1, 1)))
+            total -= per + len(build.cap_mp(1, 1))
+        room, filler = total - per, b''
+        while room > 0:
+            take = room if room <= 257 else 200  # never leaves a remainder of one octet
+            filler += build.capability(0xE7, bytes(take - 2))
+            room -= take
+        params.append((2, filler))
+        return 1, build.open_body(4, 65001, 90, 0x0A000002, params, extended)
     if shape == 'open-big-caps':
         caps = [build.cap_mp(1, 1), build.cap_asn4(65001), build.cap_hostname(b'h' * case.get('host', 255 - 2 - 10), b'd' * 10)]
         caps.append(build.cap_addpath([(1 + i % 2, [1, 2, 4, 128][i % 4], 3) for i in range(min(n, 63))]))
@@ -435,10 +451,17 @@ def unusual_cases(draw):
     shape = draw(
         st.sampled_from(
             ['unknown-attrs-distinct'] * 3 + ['unknown-attrs-repeated'] * 3 + ['unknown-attr-long', 'aspath-max', 'aspath-max', 'many-nlri', 'many-nlri', 'many-withdrawn', 'many-mp-v6']
-            + ['max-size'] * 3 + ['open-many-caps'] * 3 + ['open-big-caps']
+            + ['max-size'] * 3 + ['open-many-caps'] * 3 + ['open-big-caps', 'open-param-length']
         )
     )  # fmt: skip
     case: dict = {'shape': shape}
+    if shape == 'open-param-length':
+        case['neg'] = draw(st.sampled_from([0, 1, 12]))
+        case['extended'] = draw(st.booleans())
+        case['total'] = draw(st.sampled_from([253, 254, 255] if not case['extended'] else [20, 254, 255, 256, 257, 300]))
+        case['split'] = draw(st.booleans())
+        case['n'] = 1
+        return case
     if shape.startswith('open'):
         case['neg'] = draw(st.sampled_from([0, 0, 1, 12]))
         case['n'] = draw(st.sampled_from([1, 10, 60, 63, 126, 200, 1000, 1300, 2030]))
@@ -499,6 +522,10 @@ def unusual_fixed() -> list:
     out.append({'shape': 'max-size', 'neg': 12, 'n': 50, 'pad': 'large-community'})
     out.append({'shape': 'open-many-caps', 'neg': 0, 'n': 126, 'form': 'one-param', 'unknown': True})
     out.append({'shape': 'open-many-caps', 'neg': 0, 'n': 2030, 'form': 'extended-one', 'unknown': True})
+    for extended, totals in ((False, (253, 254, 255)), (True, (254, 255, 256, 300))):
+        for total in totals:
+            for split in (False, True):
+                out.append({'shape': 'open-param-length', 'neg': 0, 'n': 1, 'extended': extended, 'total': total, 'split': split})
     return out
 
 
